@@ -62,3 +62,13 @@ check("C13", "S", "exploration", "recording stub transport/local hooks under the
       "generated backing chains: compare_chain == file-by-file equality, valid cache => no download, invalid => exactly the chain's files.",
       "Trusted: source labels as ground truth for scopes; the proximity order own path > same host > same gateway > other. "
       "Remote (ssh/scp) transports are outside the workload.", "DESIGN.md §3 C13")
+
+check("C11", "S", "exploration", "differential (Cartesian parser as reference) + metamorphic oracle on the real params_from_cmd / parse_flat_nodes",
+      "Hundreds to thousands of argument lists built from the suite's own 65-test universe (only/no with '.', ',', '..' forms and primary "
+      "sets, stacked only_vmX/no_vmX incl. empty values, vms=, nets=/only_nets=/no_nets=, K=V overrides, shuffled) run through the real "
+      "params_from_cmd; the selection read from the real parse_flat_nodes must equal what the Cartesian parser yields for the "
+      "documented restriction text, be invariant under argument permutation/duplication and under merging only= arguments with '..', "
+      "per-vm texts and nets must follow the mapping, every K=V must be present in every parsed test, and malformed / unknown-vm / "
+      "conflicting-net lists (both orders) must raise.",
+      "Trusted: avocado-vt's Cartesian parser as the reference the property names. only_vmX=<unknown variant> is rejected only later by "
+      "object parsing and is not judged here.", "DESIGN.md §3 C11")
